@@ -340,22 +340,22 @@ impl Timelike for XsdDateTime {
 
 /// Implements <https://www.w3.org/TR/xmlschema-2/#dateTime-order>
 fn heterogeneous_cmp(d1: &DateTime<FixedOffset>, d2: &NaiveDateTime) -> Option<Ordering> {
-    if d1 < &naive_to_fixed(d2, 14) {
+    // close to the ends of chrono's range, d2 at +14:00 or -14:00 may not be representable;
+    // d1, which is representable, can then not be beyond it
+    if naive_to_fixed(d2, 14).is_some_and(|d2| d1 < &d2) {
         Some(Ordering::Less)
-    } else if d1 > &naive_to_fixed(d2, -14) {
+    } else if naive_to_fixed(d2, -14).is_some_and(|d2| d1 > &d2) {
         Some(Ordering::Greater)
     } else {
         None
     }
 }
 
-fn naive_to_fixed(d: &NaiveDateTime, offset: i8) -> DateTime<FixedOffset> {
+fn naive_to_fixed(d: &NaiveDateTime, offset: i8) -> Option<DateTime<FixedOffset>> {
     debug_assert!((-14..=14).contains(&offset));
     let fixed_offset = FixedOffset::east_opt(i32::from(offset) * 3600).unwrap();
-    match d.and_local_timezone(fixed_offset) {
-        chrono::offset::LocalResult::Single(r) => r,
-        _ => unreachable!(), // FixedOffset has no fold or gap, so there is always a single result
-    }
+    // FixedOffset has no fold or gap, so the result is single unless it is out of range
+    d.and_local_timezone(fixed_offset).single()
 }
 
 #[cfg(test)]
